@@ -112,6 +112,25 @@ def run_tables(desc):
             own[name] = {"kind": "array", "letters": letters, "vals": [float(v) for v in arr_.reshape(-1)]}
         check_model(dict(cfg, lt=dict(cfg["lt"], prms=own)), mdl, pre="tables-vs-own-parameters-")
         out["classes"].append("caller-updated-its-arrays-after-read")
+    if desc.get("use_in_sdsm"):
+        # the model is used by a stock-driven DSM (which only READS the tables); afterwards the tables are still
+        # those of the declared distribution - also where the survival share within the first interval is zero
+        U = sg.universe_of(cfg)
+        mdl = sg.build_lifetime(U, cfg["lt"])
+        dims = build.dimset(U, gen.uletters(U))
+        shape = tuple(len(d["items"]) for d in U["dims"])
+        import warnings
+
+        for solver in (("manual", "lapack") if desc["use_in_sdsm"] == "both" else (desc["use_in_sdsm"],)):
+            sd_ = build.fd.StockDrivenDSM(dims=dims, stock=build.fd.StockArray(dims=dims, values=np.full(shape, 5.0)), lifetime_model=mdl, solver=solver, name="s")
+            with warnings.catch_warnings():
+                warnings.simplefilter("ignore")
+                try:
+                    sd_.compute()
+                except Exception:
+                    pass  # a singular table (nothing survives its first interval) may be refused by the solver
+        check_model(cfg, mdl, pre="after-use-in-stock-driven-model-")
+        out["classes"].append("used-in-stock-driven-model")
     if desc.get("configure"):
         c = desc["configure"]
         check_model(cfg, configured_model(cfg, c["how"], c), pre="settings-assigned-")
@@ -231,6 +250,7 @@ def table_cases(draw, max_n=8):
         elif keep == "last":
             new = {names[-1]: new[names[-1]]}
         d["reprm"] = new
+    d["use_in_sdsm"] = draw(st.sampled_from([None, None, None, "manual", "lapack", "both"]))
     d["touch_after_read"] = draw(st.sampled_from([None, None, None, "ctor", "set_prms"]))
     if draw(st.integers(0, 3)) == 0:
         d["configure"] = {
